@@ -23,7 +23,7 @@ RULE = (
     "instance; non-trivial = tree with >= 3 nodes; distinct = distinct tree fingerprints"
 )
 ASSUMPTIONS = ["all nodes of a tree are registered (handles are held) and no object occurs twice, as the statement requires"]
-MUST_SEE = ["interleaved_ancestor_chains", "relative_depth_unchecked", "absolute_after_relative", "both_foreign_keyerrors", "twin_pairs_in_tree", "foreign_twins", "non_ancestor_pairs", "index_ge_10", "root_relative_valueerror", "keyerrors", "subtree_trees", "exact_tuple_hits"]
+MUST_SEE = ["remodelled_class_tree", "interleaved_ancestor_chains", "relative_depth_unchecked", "absolute_after_relative", "both_foreign_keyerrors", "twin_pairs_in_tree", "foreign_twins", "non_ancestor_pairs", "index_ge_10", "root_relative_valueerror", "keyerrors", "subtree_trees", "exact_tuple_hits"]
 CONFIG = {
     "quick": {"shards": 16, "trees": 400, "max_nodes": 28, "watchdog_s": 300},
     "thorough": {"shards": 32, "trees": 600, "max_nodes": 45, "watchdog_s": 3000},
@@ -342,3 +342,37 @@ def run_shard(ctx):
                 if r != "KeyError":
                     bad("foreign", f"{name} did not raise KeyError", got=r)
         del foreign
+
+
+def remodel_leg(ctx, U, Tree):
+    """a Tree over instances of a class that was defined again (more child fields) after its first version was used"""
+    from vlib.universe import remodelled_class
+
+    old, new, leaf = remodelled_class(U, "C06")
+    a, b, c, d = leaf(v=21), leaf(v=22), leaf(v=23), leaf(v=24)
+    n = new(first=a, second=(b, c), third=d, v=5)
+    t = Tree(n)
+    ctx.evaluations += 1
+    ctx.count("remodelled_class_tree")
+    f = new.__dataclass_fields__
+    exp = {id(a): (n, f["first"], None), id(b): (n, f["second"], 0), id(c): (n, f["second"], 1), id(d): (n, f["third"], None)}
+    for x in (a, b, c, d):
+        try:
+            ok = t.is_in_tree(x) and tuple(t.get_parent_info(x)) == exp[id(x)] and t.get_depth(x) == 1 and list(t.get_ancestors(x)) == [n]
+        except KeyError:
+            ok = False
+        if not ok:
+            ctx.violation("get_parent_info", "a Tree over a node whose class was defined again (more child fields) does not know all descendants / reports another class's field", {"class": new.__name__})
+            break
+    n.detach()
+
+
+_main_run_shard = run_shard
+
+
+def run_shard(ctx):  # noqa: F811 - the main loop, then the legs that need a history of class definitions
+    _main_run_shard(ctx)
+    if ctx.only_case is None:
+        from pyoak.tree import Tree
+
+        remodel_leg(ctx, core_universe(), Tree)
